@@ -211,8 +211,12 @@ impl<'a> GeneratorState<'a> {
                         self.carry_flag_ok = false;
                         Ok(ExprType::Y)
                     }
-                    ExprType::Nothing => unreachable!(),
-                    ExprType::Label(_) => unreachable!(),
+                    ExprType::Nothing => Err(self
+                        .compiler_state
+                        .syntax_error("Can't assign void to variable", pos)),
+                    ExprType::Label(_) => {
+                        Err(self.compiler_state.syntax_error("Syntax error", pos))
+                    }
                 }
             }
             _ => {
